@@ -159,6 +159,32 @@ pub fn annotated_bodies(oracle: Oracle) -> Box<dyn Space> {
     space("G-PROG/annotated-bodies/prelude", count, 16, desc, Box::new(gen), oracle)
 }
 
+/// The prelude followed by a redeclaration of each of its names with each of six other
+/// declaration forms (a rejected declaration must leave what came before untouched), followed
+/// by a use.
+pub fn redeclarations(oracle: Oracle) -> Box<dyn Space> {
+    const NAMES: [&str; 14] = ["q", "r", "a", "b", "c", "u", "f", "m", "k", "d", "ang", "g1", "g2", "f1"];
+    let count = NAMES.len() as u64 * 6;
+    let desc = json!({"space": "G-PROG redeclarations", "names": NAMES, "forms": ["float[64]", "qubit", "gate", "bit[2]", "const int", "def"], "prelude": true});
+    let gen = move |i: u64| -> Option<ProgCase> {
+        let name = NAMES[(i / 6) as usize].to_string();
+        let form = i % 6;
+        let st = match form {
+            0 => Stmt::Decl { konst: false, ty: Ty::w("float", 64), name: name.clone(), init: None },
+            1 => Stmt::Qubit { size: None, name: name.clone() },
+            2 => Stmt::Gate { name: name.clone(), params: Some(vec!["th9".into()]), qubits: vec!["y8".into(), "y9".into()], body: vec![] },
+            3 => Stmt::Decl { konst: false, ty: Ty::w("bit", 2), name: name.clone(), init: None },
+            4 => Stmt::Decl { konst: true, ty: Ty::plain("int"), name: name.clone(), init: Some(int(1)) },
+            _ => Stmt::Def { name: name.clone(), params: vec![], ret: None, body: vec![] },
+        };
+        let mut stmts = prelude();
+        stmts.push(st);
+        stmts.push(Stmt::Reset(crate::model::prog::Operand::Id("r".into())));
+        Some(ProgCase { stmts, tag: format!("redeclare[{}]/{}", form, name) })
+    };
+    space("G-PROG/redeclarations/prelude", count, 8, desc, Box::new(gen), oracle)
+}
+
 fn rename_decl(st: &mut Stmt, pos: usize) {
     let sfx = format!("_{}", pos);
     match st {
